@@ -223,4 +223,29 @@ def gpfMoveCase (mode n : Nat) : Case := do
 def gpfSampleCase (msize csize : Nat) : Case := do let r ← gpfSample msize csize; pure (some [toString r])
 def gpfSampleValid (msize csize : Nat) : Prop := msize = csize
 
+/-! #### the preconditions are decidable (the driver evaluates them) -/
+instance (d : Dim) (sr : Nat) : Decidable (wnaMotionValid d sr) := by unfold wnaMotionValid; infer_instance
+instance (d : Dim) (sr : Nat) : Decidable (ssmValid d sr) := by unfold ssmValid; infer_instance
+instance (T c : Nat) : Decidable (ssmLogValid T c) := by unfold ssmLogValid; infer_instance
+instance (d : Dim) (n : Nat) : Decidable (slsValid d n) := by unfold slsValid; infer_instance
+instance (K : Nat) (L : Layout) : Decidable (spValid K L) := by unfold spValid; infer_instance
+instance (K : Nat) (I : Layout) (w : Nat) (O : Layout) (p d : Nat) : Decidable (utValid K I w O p d) := by unfold utValid; infer_instance
+instance (K : Nat) (I : Layout) (w fn fq : Nat) (D : Layout) : Decidable (utsmValid K I w fn fq D) := by unfold utsmValid; infer_instance
+instance (d : Dim) (K dl dn w : Nat) : Decidable (utwnaValid d K dl dn w) := by unfold utwnaValid; infer_instance
+instance (a : Bool) (K : Nat) (I : Layout) (w : Nat) (M : MMod) : Decidable (utmmValid a K I w M) := by unfold utmmValid; infer_instance
+instance (I : Layout) (K : Nat) (C : Layout) (cK : Nat) (M : MMod) : Decidable (corrValidCommon I K C cK M) := by unfold corrValidCommon; infer_instance
+instance (a : Bool) (I : Layout) (K : Nat) (C : Layout) (cK : Nat) (M : MMod) : Decidable (ukfValid a I K C cK M) := by unfold ukfValid; infer_instance
+instance (I : Layout) (K : Nat) (C : Layout) (cK : Nat) (M : MMod) (s : Nat) (r : Bool) : Decidable (sukfValid I K C cK M s r) := by unfold sukfValid; infer_instance
+instance (I : Layout) (K : Nat) (C : Layout) (cK hm hn y : Nat) : Decidable (kfValid I K C cK hm hn y) := by unfold kfValid; infer_instance
+instance (K : Nat) (L : Layout) (w : String) (i j k : Nat) : Decidable (gmaccValid K L w i j k) := by unfold gmaccValid; infer_instance
+instance (K : Nat) (L : Layout) (w : String) (i j : Nat) : Decidable (psaccValid K L w i j) := by unfold psaccValid; infer_instance
+instance (K : Nat) : Decidable (gmaugValid K) := by unfold gmaugValid; infer_instance
+instance (K : Nat) (L : Layout) : Decidable (gmresizeValid K L) := by unfold gmresizeValid; infer_instance
+instance (L1 L2 : Layout) : Decidable (psaddValid L1 L2) := by unfold psaddValid; infer_instance
+instance (N : Nat) (I : Layout) (rN : Nat) (R : Layout) (p : Nat) : Decidable (rsValid N I rN R p) := by unfold rsValid; infer_instance
+instance (N a b : Nat) (I : Layout) (p : Nat) : Decidable (rwpValid N a b I p) := by unfold rwpValid; infer_instance
+instance (ls cs : Nat) (f : Bool) (a : EEArgs) : Decidable (eeValid ls cs f a) := by unfold eeValid; infer_instance
+instance (m c : Nat) : Decidable (gpfSampleValid m c) := by unfold gpfSampleValid; infer_instance
+
+
 end BFL.Bounds
